@@ -53,6 +53,9 @@ func (c *c17) Cases(tier string, seed int64) []core.Case {
 		cs = append(cs, core.MkCase(fmt.Sprintf("par2-defaults-%d", i), c17Params{r.Int63(), "par2-defaults"}))
 		cs = append(cs, core.MkCase(fmt.Sprintf("par1-defaults-%d", i), c17Params{r.Int63(), "par1-defaults"}))
 		cs = append(cs, core.MkCase(fmt.Sprintf("par2-empty-file-%d", i), c17Params{r.Int63(), "par2-empty-file"}))
+		if i == 0 || tier == "thorough" {
+			cs = append(cs, core.MkCase(fmt.Sprintf("par2-big-volumes-%d", i), c17Params{r.Int63(), "par2-big-volumes"}))
+		}
 		for _, h := range encoderHistories {
 			cs = append(cs, core.MkCase(fmt.Sprintf("par2-encoder-%s-%d", h, i), c17Params{r.Int63(), "par2-encoder:" + h}))
 			cs = append(cs, core.MkCase(fmt.Sprintf("par1-encoder-%s-%d", h, i), c17Params{r.Int63(), "par1-encoder:" + h}))
@@ -73,11 +76,21 @@ func (c *c17) runOutcomes(r *core.R, p c17Params, rng *rand.Rand) {
 	}
 	defer os.RemoveAll(root)
 	par1Mode := p.Fmt == "par1-defaults"
+	bigVolumes := p.Fmt == "par2-big-volumes"
 	ext := map[bool]string{true: ".par", false: ".par2"}[par1Mode]
 	var set scen.Set
 	nf := 3 + rng.Intn(3)
 	for i := 0; i < nf; i++ {
 		set.Files = append(set.Files, scen.File{Name: fmt.Sprintf("in%d.dat", i), Data: scen.GenData(rng, "random", 1500+rng.Intn(7000), 4)})
+	}
+	if bigVolumes {
+		// slices of ~70 KB and 15 blocks: the recovery files holding 4 and 8
+		// blocks are several hundred KiB each
+		set.Files = nil
+		for i := 0; i < 2; i++ {
+			set.Files = append(set.Files, scen.File{Name: fmt.Sprintf("big%d.dat", i), Data: scen.GenData(rng, "random", 100000+rng.Intn(80000), 4)})
+		}
+		nf = 2
 	}
 	emptyAt := -1
 	if p.Fmt == "par2-empty-file" {
@@ -98,7 +111,14 @@ func (c *c17) runOutcomes(r *core.R, p c17Params, rng *rand.Rand) {
 		ident[i] = i
 	}
 	var variants []variant
-	if emptyAt >= 0 {
+	if bigVolumes {
+		o2 := par2.CreateOptions{SliceByteCount: 70000, NumParityShards: 15, NumGoroutines: 4}
+		ident2 := []int{0, 1}
+		variants = append(variants, variant{name: "big-volumes,GOMAXPROCS=default", cores: -1, order: ident2, opts2: o2})
+		for _, pc := range []int{1, 2, 16} {
+			variants = append(variants, variant{name: fmt.Sprintf("big-volumes,GOMAXPROCS=%d", pc), procs: pc, cores: -1, order: ident2, opts2: o2})
+		}
+	} else if emptyAt >= 0 {
 		o2 := par2.CreateOptions{SliceByteCount: 400, NumParityShards: 2, NumGoroutines: 2}
 		variants = append(variants, variant{name: "listed-in-order", procs: 0, cores: -1, order: ident, opts2: o2})
 		for k := 0; k < 10; k++ {
@@ -136,7 +156,7 @@ func (c *c17) runOutcomes(r *core.R, p c17Params, rng *rand.Rand) {
 	var ref *outcome
 	var refName string
 	for i, v := range variants {
-		dir := filepath.Join(root, fmt.Sprintf("v%d", i), "the set")
+		dir := filepath.Join(root, fmt.Sprintf("v%d", i), c17SetDirName)
 		if _, err := set.Materialize(dir); err != nil {
 			r.Inconclusive("materialize: %v", err)
 			return
@@ -219,6 +239,11 @@ func createdFiles(dir string, inputs map[string]bool) map[string]string {
 	return out
 }
 
+// c17SetDirName is the name of the directory every set lives in: it contains
+// ".par" and ".par2" itself (a naive search for the extension in the whole
+// path finds the directory first).
+const c17SetDirName = "the.parts set.par2.d"
+
 type c17Variant struct {
 	// over: longer files already exist under the names Create will write
 	over  bool
@@ -278,7 +303,8 @@ func (c *c17) Run(cs core.Case) core.Result {
 		encoderHistoryDifferential(r, p.Fmt[:i], p.Fmt[i+9:], "create-output-varies|encoder-reuse", rng)
 		return r.Done()
 	}
-	if p.Fmt == "par2-defaults" || p.Fmt == "par1-defaults" || p.Fmt == "par2-empty-file" {
+	if p.Fmt == "par2-big-volumes" ||
+		p.Fmt == "par2-defaults" || p.Fmt == "par1-defaults" || p.Fmt == "par2-empty-file" {
 		c.runOutcomes(r, p, rng)
 		return r.Done()
 	}
@@ -338,7 +364,7 @@ func (c *c17) Run(cs core.Case) core.Result {
 	var refFiles map[string]string
 	run := func(tag string, v c17Variant) map[string]string {
 		top := filepath.Join(root, tag)
-		setDir := filepath.Join(top, "the set")
+		setDir := filepath.Join(top, c17SetDirName)
 		if _, err := set.Materialize(setDir); err != nil {
 			r.Inconclusive("materialize: %v", err)
 			return nil
@@ -491,7 +517,7 @@ func (c *c17) Run(cs core.Case) core.Result {
 		relCopy := append([]string(nil), rel...)
 		for k := 0; k < 3; k++ {
 			top := filepath.Join(root, fmt.Sprintf("batch%d", k))
-			setDir := filepath.Join(top, "the set")
+			setDir := filepath.Join(top, c17SetDirName)
 			if _, err := set.Materialize(setDir); err != nil {
 				break
 			}
@@ -542,7 +568,7 @@ func (c *c17) Run(cs core.Case) core.Result {
 		var dirs []string
 		for k := 0; k < par; k++ {
 			top := filepath.Join(root, fmt.Sprintf("conc%d", k))
-			setDir := filepath.Join(top, "the set")
+			setDir := filepath.Join(top, c17SetDirName)
 			set.Materialize(setDir)
 			dirs = append(dirs, setDir)
 		}
@@ -586,7 +612,7 @@ func (c *c17) Run(cs core.Case) core.Result {
 	if p.Fmt == "par2" && len(set.Files) >= 2 {
 		runRepeat := func(tag, spellRepeat, cwd string) (map[string]string, error) {
 			top := filepath.Join(root, tag)
-			setDir := filepath.Join(top, "the set")
+			setDir := filepath.Join(top, c17SetDirName)
 			set.Materialize(setDir)
 			cwdPath := map[string]string{"set": setDir, "other": other}[cwd]
 			var paths []string
